@@ -803,6 +803,7 @@ type c08unitResult struct {
 	unreleased  []string
 	unrelW      [][]string
 	freshOK     int
+	viaWrapper  int // function literals analysed as bodies run by a withLock-style helper
 }
 
 func c08Lock(v *c08env) {
@@ -826,13 +827,15 @@ func c08Lock(v *c08env) {
 	// require it from their callers (fixpoint over the call chain inside the package).
 	el := map[*types.Func]bool{}
 	results := map[*c08unit]*c08unitResult{}
+	wrappers := c08lockWrappers(v, units)
+	c.Count("R-C08-1:withLock-style helpers", len(wrappers))
 	for iter := 0; iter < 6; iter++ {
 		changed := false
 		for _, u := range units {
 			if !c08touches(v, u, el) {
 				continue
 			}
-			r := c08lockUnit(v, u, el)
+			r := c08lockUnit(v, u, el, wrappers)
 			if r == nil {
 				return
 			}
@@ -923,7 +926,140 @@ func c08touches(v *c08env, u *c08unit, el map[*types.Func]bool) bool {
 	return found
 }
 
-func c08lockUnit(v *c08env, u *c08unit, el map[*types.Func]bool) *c08unitResult {
+// c08lockEvent updates the lock events for a call X.<mutex>.Lock/Unlock/RLock/RUnlock on the
+// breaker's mutex field; it reports whether the call takes the lock.
+func c08lockEvent(v *c08env, f *flow.Func, st *flow.State, call *ast.CallExpr, callee types.Object) bool {
+	fo, ok := callee.(*types.Func)
+	if !ok || fo.Pkg() == nil || fo.Pkg().Path() != "sync" {
+		return false
+	}
+	sel, ok := ast.Unparen(call.Fun).(*ast.SelectorExpr)
+	if !ok {
+		return false
+	}
+	fv, base := c08sel(f, sel.X)
+	if fv != v.lock {
+		return false
+	}
+	k := "ev:lock:" + f.Render(ast.Unparen(base))
+	switch fo.Name() {
+	case "Lock":
+		st.Set(k, flow.True)
+		st.Set(k+":r", flow.Unknown)
+		return true
+	case "RLock":
+		st.Set(k, flow.True)
+		st.Set(k+":r", flow.True)
+		return true
+	case "Unlock", "RUnlock":
+		st.Set(k, flow.False)
+		st.Set(k+":r", flow.Unknown)
+	}
+	return false
+}
+
+// c08lockWrappers finds the withLock-style helpers: methods of the breaker with a function
+// parameter which they call only while holding the receiver's lock (write lock), and which
+// release the lock on every exit. Result: method -> index of the function parameter.
+func c08lockWrappers(v *c08env, units []*c08unit) map[*types.Func]int {
+	out := map[*types.Func]int{}
+	c := v.c
+	for _, u := range units {
+		if u.recv == nil || u.obj == nil || u.fd.Type.Params == nil {
+			continue
+		}
+		f := u.f
+		idx, pidx := 0, -1
+		var pobj types.Object
+		n := 0
+		for _, fl := range u.fd.Type.Params.List {
+			for _, name := range fl.Names {
+				if o := f.Info.Defs[name]; o != nil {
+					if _, isSig := o.Type().Underlying().(*types.Signature); isSig {
+						pidx, pobj = idx, o
+						n++
+					}
+				}
+				idx++
+			}
+		}
+		if n != 1 {
+			continue
+		}
+		// the parameter must only be called (not stored, passed on, or started as a goroutine)
+		okUse := true
+		callFuns := map[*ast.Ident]bool{}
+		for _, call := range calls(u.fd.Body, true) {
+			if id, ok := ast.Unparen(call.Fun).(*ast.Ident); ok && f.Info.Uses[id] == pobj {
+				callFuns[id] = true
+			}
+		}
+		ast.Inspect(u.fd.Body, func(x ast.Node) bool {
+			switch t := x.(type) {
+			case *ast.GoStmt:
+				if id, ok := ast.Unparen(t.Call.Fun).(*ast.Ident); ok && f.Info.Uses[id] == pobj {
+					okUse = false
+				}
+			case *ast.FuncLit:
+				ast.Inspect(t.Body, func(y ast.Node) bool {
+					if id, ok := y.(*ast.Ident); ok && f.Info.Uses[id] == pobj {
+						okUse = false
+					}
+					return true
+				})
+				return false
+			case *ast.Ident:
+				if f.Info.Uses[t] == pobj && !callFuns[t] {
+					okUse = false
+				}
+			}
+			return true
+		})
+		if !okUse || len(callFuns) == 0 {
+			continue
+		}
+		key := "ev:lock:" + f.Render(u.fd.Recv.List[0].Names[0])
+		held, released, seen, locks := true, true, 0, false
+		var badSt *flow.State
+		res, err := flow.Analyze(f, flow.Config{
+			NoHavoc: true,
+			OnCall: func(st *flow.State, call *ast.CallExpr, callee types.Object, deferred bool) {
+				if c08lockEvent(v, f, st, call, callee) {
+					locks = true
+				}
+				if callee == pobj {
+					seen++
+					if !st.Is(key, flow.True) || st.Is(key+":r", flow.True) {
+						held = false
+						badSt = st
+					}
+				}
+			},
+		})
+		if err != nil || res == nil {
+			continue
+		}
+		for _, ex := range res.Exits {
+			if ex.State.Is(key, flow.True) {
+				released = false
+			}
+		}
+		if held && released && seen > 0 {
+			out[u.obj] = pidx
+			c.Discharge("R-C08-1", u.name+"|runs its function argument under the breaker lock", pos(c, u.fd.Name), sprintf("%d call(s) of the argument, all with the write lock held; released on every exit", seen))
+		} else if locks && seen > 0 {
+			why := "the lock is still held at an exit"
+			if !held {
+				why = "the function argument is called without the (write) lock held"
+			}
+			c.Violate("R-C08-1", u.name+"|runs its function argument under the breaker lock", pos(c, u.fd.Name),
+				"a helper that takes the breaker lock and runs a function handed to it: "+why+"; the state accesses of its callers' closures race / later calls block", witness(badSt)...)
+		}
+	}
+	return out
+}
+
+func c08lockUnit(v *c08env, u *c08unit, el map[*types.Func]bool, wrappers map[*types.Func]int) *c08unitResult {
 	f := u.f
 	r := &c08unitResult{}
 	defs := c08collectDefs(f, u.fd.Body)
@@ -975,6 +1111,7 @@ func c08lockUnit(v *c08env, u *c08unit, el map[*types.Func]bool) *c08unitResult 
 		return true
 	}
 	lockKey := func(base ast.Expr) string { return "ev:lock:" + f.Render(ast.Unparen(base)) }
+	heldBase := "" // set while the body of a literal handed to a lock wrapper is analysed
 	isObserver := u.recv != nil && u.fd.Name.Name == "State"
 	visited := map[ast.Node]bool{}
 	type verdict struct {
@@ -1002,6 +1139,9 @@ func c08lockUnit(v *c08env, u *c08unit, el map[*types.Func]bool) *c08unitResult 
 		}
 		held := st.Get(lockKey(base))
 		ronly := st.Is(lockKey(base)+":r", flow.True)
+		if held == flow.Unknown && heldBase != "" && f.Render(ast.Unparen(base)) == heldBase {
+			held = flow.True // inside a function literal run by a withLock-style helper on this breaker
+		}
 		switch {
 		case held == flow.True && write && ronly:
 			vd.bad = what + " written under a read lock at " + f.Pos(node.Pos())
@@ -1027,7 +1167,7 @@ func c08lockUnit(v *c08env, u *c08unit, el map[*types.Func]bool) *c08unitResult 
 			}
 		}
 	}
-	res := analyze(v.c, f, flow.Config{
+	cfg := flow.Config{
 		NoHavoc: true,
 		OnNode: func(st *flow.State, n ast.Node) {
 			c08scan(n, func(x ast.Node) {
@@ -1049,36 +1189,39 @@ func c08lockUnit(v *c08env, u *c08unit, el map[*types.Func]bool) *c08unitResult 
 			})
 		},
 		OnCall: func(st *flow.State, call *ast.CallExpr, callee types.Object, deferred bool) {
-			fo, ok := callee.(*types.Func)
-			if !ok || fo.Pkg() == nil || fo.Pkg().Path() != "sync" {
-				return
-			}
-			sel, ok := ast.Unparen(call.Fun).(*ast.SelectorExpr)
-			if !ok {
-				return
-			}
-			fv, base := c08sel(f, sel.X)
-			if fv != v.lock {
-				return
-			}
-			k := lockKey(base)
-			switch fo.Name() {
-			case "Lock":
+			if c08lockEvent(v, f, st, call, callee) {
 				r.locks = true
-				st.Set(k, flow.True)
-				st.Set(k+":r", flow.Unknown)
-			case "RLock":
-				r.locks = true
-				st.Set(k, flow.True)
-				st.Set(k+":r", flow.True)
-			case "Unlock", "RUnlock":
-				st.Set(k, flow.False)
-				st.Set(k+":r", flow.Unknown)
 			}
 		},
-	})
+	}
+	res := analyze(v.c, f, cfg)
 	if res == nil {
 		return nil
+	}
+	// function literals handed to a withLock-style helper run with that breaker's lock held
+	wrapped := map[*ast.FuncLit]bool{}
+	for _, call := range calls(u.fd.Body, true) {
+		fo, ok := f.Callee(call).(*types.Func)
+		if !ok {
+			continue
+		}
+		pi, isW := wrappers[fo]
+		if !isW || pi >= len(call.Args) {
+			continue
+		}
+		lit, ok := ast.Unparen(call.Args[pi]).(*ast.FuncLit)
+		sel, ok2 := ast.Unparen(call.Fun).(*ast.SelectorExpr)
+		if !ok || !ok2 {
+			continue
+		}
+		wrapped[lit] = true
+		heldBase = f.Render(ast.Unparen(sel.X))
+		sub := analyze(v.c, f.Lit(lit), cfg)
+		heldBase = ""
+		if sub == nil {
+			return nil
+		}
+		r.viaWrapper++
 	}
 	nodes := make([]ast.Node, 0, len(siteRes))
 	for n := range siteRes {
@@ -1121,6 +1264,9 @@ func c08lockUnit(v *c08env, u *c08unit, el map[*types.Func]bool) *c08unitResult 
 		}
 		if fv, _ := c08sel(f, sel); fv != nil && v.prot[fv] {
 			for _, l := range lits {
+				if wrapped[l] {
+					continue
+				}
 				if contains(l.Body, sel) {
 					r.undecided = append(r.undecided, "field "+fv.Name()+" is accessed inside a function literal that is not a deferred call ("+f.Pos(sel.Pos())+"); when it runs is unknown")
 					break
